@@ -10,8 +10,12 @@ evaluates the same C09_* / C10_* predicates on every prefix (predicate mode).
 
 Scenario flavours (gen_scenarios): the enumerated shape space (c09 / c10) plus, on top, c09-pre / c09-burst (a backlog
 of Register/Deregister messages in front of the system controller), c10-self (commands that send from the arbiter's
-own thread through Arbiter::current()) and c10-rounds (one OS thread hosts 2-3 Systems one after another; each System
-is a run of its own in the trace)."""
+own thread through Arbiter::current()), c10-rounds (one OS thread hosts 2-3 Systems one after another; each System
+is a run of its own in the trace), c09-twostop (stop, Arbiter::new, stop, all before run() is entered: the later stop
+must reach the arbiter created between the two), c09-pinned (hundreds of short Systems with every thread pinned to ONE
+CPU: Arbiter::new and System::stop at once by the same thread; makes the window between "ready" and "registered"
+observable) and c10-teardown (tasks that never complete are pending when their arbiter is stopped: their destructors
+run between the end of the loop and the exit of the thread and send from there)."""
 import concurrent.futures
 import itertools
 import json
@@ -41,7 +45,14 @@ NEGS_C09 = {"NEG_C09_SecondStopOverwritesCode.cfg": ["C09_FirstCodeWins"],
             "NEG_C09_RunOkOnNegative.cfg": ["C09_RunErrOnNonZero"],
             "NEG_C09_live_CtrlBatchLosesWake.cfg": ["temporal"],
             "NEG_C09_RegisterAfterReady.cfg": ["C09_AllRegisteredStop"],
+            "NEG_C09_LaterExitNoOp.cfg": ["C09_AllRegisteredStop"],
             "NEG_C09_live_ExitSkipsLastArbiter.cfg": ["temporal"]}
+
+
+# flavours whose scenarios reproduce a real watchdog expiry when they are run again (deterministic sequences, or
+# hundreds of repetitions of a race): such a rejection is reported only if a re-run of the scenario is rejected too
+CONFIRM_BY_RERUN = ("c09-twostop", "c09-pinned")
+TIMEOUT_EVS = ("JoinTimeout", "GoneTimeout", "RunTimeout")
 
 
 # --------------------------------------------------------------------------------------------
@@ -167,6 +178,61 @@ def gen_backlog_scenario(rng, sid, k, which):
     return sc
 
 
+def gen_twostop_scenario(rng, sid, k):
+    """C09, two (or three) stop calls with arbiters created between them, everything BEFORE run() is entered and
+    without the runner being polled in between: Exit, Register, Exit are all buffered when the controller is polled
+    for the first time, so the later Exit is handled (in the same poll as the first one) and must stop the arbiter
+    created before it was issued.  The first code still wins.  Stops from the system thread or a foreign thread."""
+    shapes = tuple(rng.choice(["running", "running", "busy", "dropped", "early"]) for _ in range(rng.randint(0, 2)))
+    sc = gen_scenario(rng, sid, (shapes, FROMS[k % 3], rng.choice(["zero", "pos", "neg"]), 1), "c09")
+    for script in sc["senders"] + [a["owner"] for a in sc["arbs"]]:
+        script[:] = [c for c in script if not (c["op"] == "stop" and c["arb"] == 0)]
+    codes = [sc["stops"][0]["code"]] + rng.sample([0, 7, 9, -1, -7, 1], 2)
+    def stop(i):
+        return {"op": "stop", "code": codes[i], "from": "foreign" if rng.random() < 0.35 else "sys"}
+    def new():
+        fate = rng.choice(["keep", "keep", "drop", "busy", "pend"])
+        return {"op": "new", "fate": fate, "ms": rng.randint(3, 15)}
+    steps = [stop(0)] + [new() for _ in range(rng.randint(1, 2))] + [stop(1)]
+    if k % 3 == 2:
+        steps += [new(), stop(2)]
+    if k % 4 == 1:
+        steps = [new()] + steps
+    sc["prerun"] = steps
+    # every second scenario: one more stop while the system runs (it may or may not be handled: promises nothing)
+    sc["stops"] = [dict(sc["stops"][0], code=rng.choice([0, 7, -7]))] if k % 2 else []
+    sc["late"], sc["late_stop"] = False, None
+    sc["flavour"] = "c09-twostop"
+    return sc
+
+
+def gen_pinned_scenario(rng, sid, rounds):
+    """C09: `rounds` short Systems, every thread on ONE CPU (the driver pins a thread of its own, the threads created
+    below it inherit the mask): 1-3 x Arbiter::new(), then System::stop at once by the same thread (system thread
+    before run(), task on the system thread, or a foreign thread it spawns), run, join every arbiter."""
+    return {"id": sid, "seed": rng.getrandbits(48), "pinned": {"rounds": rounds}, "arbs": [], "stops": [],
+            "flavour": "c09-pinned"}
+
+
+def gen_teardown_scenario(rng, sid, k):
+    """C10: tasks that never complete are pending (started, or still queued) when their arbiter is stopped, by stop()
+    or by a System stop, with other threads still sending: the destructors of the guards they own run between the end
+    of the loop and the exit of the arbiter's thread and send from there."""
+    shapes = tuple(rng.choice(["running", "running", "dropped", "early", "busy"]) for _ in range(rng.randint(1, 2)))
+    sc = gen_scenario(rng, sid, (shapes, rng.choice(FROMS), "zero", 1), "c10")
+    n = len(shapes)
+    for i, a in enumerate(sc["arbs"]):
+        pends = [{"arb": i + 1, "op": "spawn", "body": "pend", "echo": False} for _ in range(rng.randint(1, 3))]
+        a["owner"] = pends[:1] + a["owner"] + pends[1:]
+    sc["senders"] = sc["senders"][:2] + [[dict(gen_cmd(rng, n, allow_stop=False, sys_target=False), arb=rng.randint(1, n))
+                                          for _ in range(rng.randint(3, 6))]]
+    if k % 2:
+        sc["senders"][-1].append({"arb": rng.randint(1, n), "op": "stop"})
+    sc["stops"][0]["delay"] = rng.randint(1, 4)
+    sc["flavour"] = "c10-teardown"
+    return sc
+
+
 def gen_self_scenario(rng, sid, k):
     """C10: commands that send from the arbiter's own thread, guaranteed present (on a worker arbiter and, every
     other scenario, on the system arbiter), next to ordinary traffic from other threads."""
@@ -203,8 +269,9 @@ def gen_rounds_scenario(rng, sid):
 def extras(count, flavour):
     """how many scenarios of the special flavours are added on top of the `count` enumerated ones"""
     if flavour == "c09":
-        return {"pre": max(12, count * 18 // 100), "burst": max(9, count * 12 // 100)}
-    return {"self": max(12, count * 12 // 100), "rounds": max(8, count * 10 // 100)}
+        return {"pre": max(12, count * 18 // 100), "burst": max(9, count * 12 // 100),
+                "twostop": max(8, count * 4 // 100), "pinned": 2 if count <= 500 else 4}
+    return {"self": max(12, count * 12 // 100), "rounds": max(8, count * 10 // 100), "teardown": max(8, count * 4 // 100)}
 
 
 def gen_scenarios(rng, count, flavour):
@@ -221,14 +288,22 @@ def gen_scenarios(rng, count, flavour):
     special = []
     if flavour == "c09":
         special += [("pre", k) for k in range(ex["pre"])] + [("burst", k) for k in range(ex["burst"])]
+        special += [("twostop", k) for k in range(ex["twostop"])] + [("pinned", k) for k in range(ex["pinned"])]
     else:
         special += [("self", k) for k in range(ex["self"])] + [("rounds", k) for k in range(ex["rounds"])]
+        special += [("teardown", k) for k in range(ex["teardown"])]
     for which, k in special:
         sid = len(out)
         if which in ("pre", "burst"):
             sc = gen_backlog_scenario(rng, sid, k, which)
         elif which == "self":
             sc = gen_self_scenario(rng, sid, k)
+        elif which == "twostop":
+            sc = gen_twostop_scenario(rng, sid, k)
+        elif which == "pinned":
+            sc = gen_pinned_scenario(rng, sid, 100 if count <= 500 else 1500)
+        elif which == "teardown":
+            sc = gen_teardown_scenario(rng, sid, k)
         else:
             sc = gen_rounds_scenario(rng, sid)
         # spread them over the whole run list (the driver stops after a few runs with watchdog expiries)
@@ -306,7 +381,9 @@ def describe(run, pos):
     return "record %d of the run: %s" % (pos, json.dumps(rec))
 
 
-def model_checks(ctx, cfgs, negs, live=None, need_actions=()):
+def model_checks(ctx, cfgs, negs, live=None, need_actions=(), side=()):
+    """`cfgs` are checked one after another with many TLC workers; `side` = small configs that must hold too, checked
+    next to the NEG configs (a few TLC processes side by side)."""
     if os.environ.get("VERIF_RT_SKIP_MC") == "1":
         # only for mutation experiments in a scratch copy (tools/scratch.sh): binding part alone
         vlib.log("VERIF_RT_SKIP_MC=1: model checking skipped (mutation experiment)")
@@ -329,8 +406,14 @@ def model_checks(ctx, cfgs, negs, live=None, need_actions=()):
         ctx.add_tlc(live, res, "liveness under weak fairness (no state constraint): every issued stop leads to "
                                "run returning and to the join of every arbiter created before it returning")
     # the NEG configs are small and independent: a few TLC processes side by side
+    def must_hold(cfg, note):
+        res = ctx.model_check(MOD, cfg, workers=3, timeout=1200)
+        vlib.require_ok(res, cfg)
+        with _COV_LOCK:
+            ctx.add_tlc(cfg, res, note)
     with concurrent.futures.ThreadPoolExecutor(max_workers=4) as pool:
-        futs = [pool.submit(ctx.expect_neg, MOD, ncfg, exp, workers=3) for ncfg, exp in negs.items()]
+        futs = [pool.submit(must_hold, cfg, note) for cfg, note in side]
+        futs += [pool.submit(ctx.expect_neg, MOD, ncfg, exp, workers=3) for ncfg, exp in negs.items()]
         for f in futs:
             f.result()
 
@@ -376,6 +459,26 @@ TAMPERED = {
         ("C09_AllRegisteredStop", _t(*_sys(0), {"ev": "RunReturned", "api": "run", "ok": True, "code": 0},
                                      {"ev": "JoinReturned", "arb": 1}, {"ev": "JoinTimeout", "arb": 2, "phase": "sys"})),
         ("C09_EarlyStoppedDeregistered", _t(*_STOP1, {"ev": "JoinReturned", "arb": 1}, *_send(1, True), _start(1))),
+        # two stop calls before run() is entered, an arbiter created between them is not stopped
+        ("C09_AllRegisteredStop", _t(*_sys(3), {"ev": "ArbNewEnd", "arb": 301}, *_sys(9), {"ev": "RunCall", "api": "run_with_code"},
+                                     {"ev": "RunReturned", "api": "run_with_code", "ok": True, "code": 3, "coded": True},
+                                     {"ev": "JoinReturned", "arb": 1}, {"ev": "JoinTimeout", "arb": 301, "phase": "sys"})),
+        # ... the later stop call made by another thread, overlapping nothing
+        ("C09_AllRegisteredStop", _t(*_sys(0), {"ev": "ArbNewEnd", "arb": 301}, *[dict(r, tid=7) for r in _sys(9)],
+                                     {"ev": "RunCall", "api": "run"}, {"ev": "RunReturned", "api": "run", "ok": True, "code": 0},
+                                     {"ev": "JoinTimeout", "arb": 301, "phase": "sys"})),
+        # the limits of that clause (must be ACCEPTED): the later stop call returns after run() was entered / the runner
+        # was polled between the two stop calls / the later call is still open when run() is entered
+        (None, _t(*_sys(3), {"ev": "ArbNewEnd", "arb": 301}, {"ev": "RunCall", "api": "run_with_code"}, *_sys(9),
+                  {"ev": "RunReturned", "api": "run_with_code", "ok": True, "code": 3, "coded": True},
+                  {"ev": "JoinTimeout", "arb": 301, "phase": "late"})),
+        (None, _t(*_sys(3), {"ev": "Polled", "by": "block_on"}, {"ev": "ArbNewEnd", "arb": 301}, *_sys(9),
+                  {"ev": "RunCall", "api": "run_with_code"},
+                  {"ev": "RunReturned", "api": "run_with_code", "ok": True, "code": 3, "coded": True},
+                  {"ev": "JoinTimeout", "arb": 301, "phase": "late"})),
+        (None, _t(*_sys(3), {"ev": "ArbNewEnd", "arb": 301}, dict(_sys(9)[0], tid=7), {"ev": "RunCall", "api": "run_with_code"},
+                  dict(_sys(9)[1], tid=7), {"ev": "RunReturned", "api": "run_with_code", "ok": True, "code": 3, "coded": True},
+                  {"ev": "JoinTimeout", "arb": 301, "phase": "late"})),
     ],
     "C10": [
         ("C10_StartOrderRespectsSendOrder", _t(*_send(1), *_send(2), _start(2), _start(1))),
@@ -392,6 +495,17 @@ TAMPERED = {
         # Arbiter::current() inside a running task refuses a marker although nothing was stopped
         ("C10_OnOwnThread", _t(*_send(1), _start(1), {"ev": "EchoSend", "id": 1, "arb": 1, "ok": False, "tid": 5})),
         ("C10_SpawnFalseWhenGone", _t(*_STOP1, {"ev": "JoinReturned", "arb": 1}, *_send(1, True))),
+        # the loop was seen to have ended (a task that never completes is being destroyed, on the arbiter's thread):
+        # a send made from there / afterwards is accepted; a task starts afterwards
+        ("C10_SpawnFalseWhenGone", _t(*_send(1), _start(1), *_STOP1,
+                                      {"ev": "LoopEndSeen", "arb": 1, "id": 1, "started": True, "on_arbiter_thread": True, "tid": 5},
+                                      *[dict(r, tid=5) for r in _send(2, True)])),
+        ("C10_JoinAfterLoopEnd", _t(*_send(1), _start(1), *_send(2), *_STOP1,
+                                    {"ev": "LoopEndSeen", "arb": 1, "id": 1, "started": True, "on_arbiter_thread": True, "tid": 5},
+                                    _start(2))),
+        (None, _t(*_send(1), _start(1), *_STOP1,
+                  {"ev": "LoopEndSeen", "arb": 1, "id": 1, "started": True, "on_arbiter_thread": True, "tid": 5},
+                  *[dict(r, tid=5) for r in _send(2, False)], {"ev": "JoinReturned", "arb": 1})),
         ("C10_JoinAfterLoopEnd", _t(*_send(1), *_STOP1, {"ev": "JoinReturned", "arb": 1}, _start(1))),
         ("C10_BlockOnOutput", _t({"ev": "BlockOn", "what": "x", "expected": 1, "got": 2})),
     ],
@@ -406,9 +520,13 @@ def binding_vacuity_guard(ctx, tcfg):
     for k, ((pred, run), (acc, rej, _)) in enumerate(zip(cases, results)):
         got = rej[0][2] if rej else None
         if got != pred:
-            raise vlib.ToolError("binding vacuity guard: hand-written history %d should violate %s, TLC says %s" % (k, pred, got))
-    ctx.cov["binding_guard_histories_rejected"] = len(cases)
-    vlib.log("binding guard: %d hand-written contradicting histories rejected by %s" % (len(cases), tcfg))
+            raise vlib.ToolError("binding vacuity guard: hand-written history %d should %s, TLC says %s" % (
+                k, "violate %s" % pred if pred else "be accepted (limit of a clause)", got))
+    nrej = sum(1 for pred, _ in cases if pred)
+    ctx.cov["binding_guard_histories_rejected"] = nrej
+    ctx.cov["binding_guard_limit_histories_accepted"] = len(cases) - nrej
+    vlib.log("binding guard: %d hand-written contradicting histories rejected by %s, %d histories at the limits of a "
+             "clause accepted" % (nrej, tcfg, len(cases) - nrej))
 
 
 
@@ -423,6 +541,28 @@ def flow(ctx, *, flavour, tcfg, nt_rule, nontrivial):
     if not runs:
         raise vlib.ToolError("driver recorded no run")
     accepted, rejects, summaries = validate(ctx, tcfg, runs, flavour)
+    # A rejection that rests on a watchdog expiry (real time) in a scenario that reproduces a real expiry when it is run
+    # again is believed only if the re-run is rejected as well: a scheduling hiccup must not raise an alarm.
+    confirmed, unconfirmed = [], 0
+    for (ri, pos, pred) in rejects:
+        sid = runs[ri][0].get("run", ri)
+        sc = scen[sid] if sid < len(scen) else {}
+        ev = runs[ri][min(pos, len(runs[ri]) - 1)].get("ev")
+        if any(p == pred for (_, _, _, p) in confirmed):
+            continue   # this predicate is reported already (one report per predicate): no need to spend a re-run
+        if sc.get("flavour") in CONFIRM_BY_RERUN and ev in TIMEOUT_EVS:
+            _, runs2 = run_driver(ctx, [sc], "%s-confirm%d" % (flavour, sid), jobs=1)
+            _, rej2, _ = validate(ctx, tcfg, runs2, "%s-confirm%d" % (flavour, sid))
+            if rej2:
+                r2, pos2, pred2 = rej2[0]
+                confirmed.append((sid, runs2[r2], pos2, pred2))
+            else:
+                unconfirmed += 1
+                vlib.log("run %d (%s): %s at a %s record was not reproduced by a re-run of the scenario (ignored)" % (
+                    sid, sc.get("flavour"), pred, ev))
+        else:
+            confirmed.append((sid, runs[ri], pos, pred))
+    ctx.cov["rejections_not_reproduced_on_rerun"] = unconfirmed
     ctx.cov["traces_validated_against_impl"] += accepted
     ctx.cov["evaluations"] += len(runs)
     ctx.cov["impl_records"] = sum(len(r) for r in runs)
@@ -435,7 +575,7 @@ def flow(ctx, *, flavour, tcfg, nt_rule, nontrivial):
     ctx.cov["rule"] = nt_rule
     ctx.cov["antecedent_counts"] = {k: sum(1 for s in summaries if s.get(k) is True) for k in
                                     ("order", "started", "afterStop", "afterGone", "mustStop", "twoStops", "early",
-                                     "selfSend", "echo", "negCode")}
+                                     "selfSend", "echo", "negCode", "laterStop", "loopEndSeen")}
     ctx.cov["max_arbiters_in_one_run"] = max([s.get("ncreated", 0) for s in summaries] or [0])
     ctx.cov["runs_with_10_or_more_arbiters"] = sum(1 for s in summaries if s.get("ncreated", 0) >= 10)
     executed = {r[0]["run"] for r in runs}
@@ -444,6 +584,17 @@ def flow(ctx, *, flavour, tcfg, nt_rule, nontrivial):
         fl[scen[i]["flavour"]] = fl.get(scen[i]["flavour"], 0) + 1
     ctx.cov["scenarios_executed_by_flavour"] = fl
     ctx.cov["systems_hosted_after_another_on_one_thread"] = sum(1 for r in runs if r[0].get("round", 0) > 0)
+    pinned = [r[0] for r in runs if "mini" in r[0]]
+    ctx.cov["pinned_mini_rounds"] = len(pinned)
+    ctx.cov["pinned_mini_rounds_really_on_one_cpu"] = sum(1 for r in pinned if r.get("pinned_cpu", -1) >= 0)
+    if pinned and ctx.cov["pinned_mini_rounds_really_on_one_cpu"] < len(pinned):
+        vlib.log("WARNING: sched_setaffinity failed, the 'pinned' rounds ran unpinned (the ready/registered race is "
+                 "then much less likely to be exercised)")
+    # the clauses added for later stop calls / the observed end of a loop must have been exercised by the driver
+    if not rejects and not summ.get("aborted"):
+        need = {"c09": "laterStop", "c10": "loopEndSeen"}[flavour]
+        if ctx.cov["antecedent_counts"][need] == 0:
+            raise vlib.ToolError("no recorded run exercised the antecedent '%s' (driver / scenario generator drifted)" % need)
     ctx.cov["drift"] = {"send_false_before_any_stop": sum(1 for s in summaries if s.get("driftFalse")),
                         "explicit_stop_join_timeout": sum(1 for s in summaries if s.get("driftEarly"))}
     def shape_key(s):
@@ -451,12 +602,11 @@ def flow(ctx, *, flavour, tcfg, nt_rule, nontrivial):
         return (tuple(a["shape"] for a in s["arbs"]), st[0]["from"], st[0]["code"], len(s["stops"]))
     ctx.cov["scenario_shapes_covered"] = len({shape_key(r) for i in executed for r in scen[i].get("rounds", [scen[i]])})
     ctx.cov["samples"].append({"scenario": scen[0], "observed_trace": runs[0][:60]})
-    for (ri, pos, pred) in rejects:
-        sid = runs[ri][0].get("run", ri)
+    for (sid, run, pos, pred) in confirmed:
         ctx.violation("rt:%s" % pred,
-                      "predicate %s is false on the recorded history of run %d at %s" % (pred, sid, describe(runs[ri], pos)),
+                      "predicate %s is false on the recorded history of run %d at %s" % (pred, sid, describe(run, pos)),
                       {"tcfg": tcfg, "predicate": pred, "scenario": scen[sid] if sid < len(scen) else None,
-                       "first_failing_record": pos, "trace": runs[ri],
+                       "first_failing_record": pos, "trace": run,
                        "note": "real-thread timing is not reproducible; replay re-validates this recorded trace"})
     if summ["mismatches"] and not rejects:
         # a watchdog expiry that no predicate of this property covers (e.g. C10 run seeing a C09 join timeout)
@@ -464,7 +614,13 @@ def flow(ctx, *, flavour, tcfg, nt_rule, nontrivial):
     ctx.assumptions += [
         "sequence numbers are taken under one mutex: 'x ended before y started' is real-time precedence; "
         "nothing else about the order of concurrent calls is used",
-        "watchdog 10 s: a join/run that has not returned by then is recorded as a timeout",
+        "watchdog 10 s: a join/run that has not returned by then is recorded as a timeout; in the flavours "
+        "c09-twostop / c09-pinned such a rejection is reported only if a re-run of the scenario is rejected again",
+        "a later System stop call binds (arbiters created before it must stop) only when it returned before run() was "
+        "entered and the runner was not polled since the first stop call started; fewer than 128 controller messages "
+        "are buffered then (tokio's cooperative budget ends a poll of the controller after 128 messages)",
+        "the destruction of a task that never completes on a worker arbiter is an observation of the end of that "
+        "arbiter's loop (such a task is never aborted or cancelled by the driver)",
         "task identity of Arbiter::current() is observed through a marker task sent via that handle: it must be accepted "
         "while no stop of any kind was issued (the loop running the observing task is alive) and run on the same thread",
         "calls made on an arbiter's own thread through Arbiter::current() are recorded as ordinary intervals under the "
@@ -495,19 +651,25 @@ def run(ctx):
     else:
         cfgs = [("MC_C09_thorough.cfg", "exhaustive: 3 worker arbiters (1 created dynamically), 3 calls, busy tasks"),
                 ("MC_C09_thorough2.cfg", "exhaustive: 2 worker arbiters both created dynamically, 4 calls, busy tasks"),
-                ("MC_C09_quick.cfg", "exhaustive small"), ("MC_C09_calls.cfg", "three-phase calls")]
-    model_checks(ctx, cfgs, NEGS_C09, live="LIVE_C09.cfg")
+                ("MC_C09_quick.cfg", "exhaustive small"), ("MC_C09_calls.cfg", "three-phase calls"),
+                ("MC_C09_idle_thorough.cfg", "calls before run() is entered, tasks may stop the System too")]
+    side = [("MC_C09_idle.cfg", "exhaustive: 2 worker arbiters (1 created dynamically), 3 calls, <= 2 stops; everything may "
+                                "happen before run() is entered (stop calls and arbiters created between them are buffered "
+                                "in front of the controller)")]
+    model_checks(ctx, cfgs, NEGS_C09, live="LIVE_C09.cfg", side=side)
     ctx.cov["exhaustive"] = True
     ctx.cov["constants"] = {"model": "see tlc_runs", "driver": "0..3 arbiters x {early,dropped,running,busy} x stop from "
                             "{sys,arb,foreign} x codes {0 | 7,9,1,i32::MAX | -1,-7,i32::MIN} x {1,2} stops, "
                             "run()/run_with_code(); plus backlog scenarios: 10-30 arbiters created/stopped/dropped by the "
                             "system thread before run() (stop also from the system thread before run()), and bursts of "
-                            "8-16 arbiters created/stopped by a foreign thread while the system thread is blocked in a task"}
+                            "8-16 arbiters created/stopped by a foreign thread while the system thread is blocked in a task; "
+                            "two or three stop calls with arbiters created between them before run() is entered; "
+                            "2 x 100 (thorough 4 x 1500) short Systems pinned to one CPU: Arbiter::new and stop at once"}
     flow(ctx, flavour="c09", tcfg="Trace_C09.cfg",
          nt_rule="a run is non-trivial when a System stop was issued while at least one worker arbiter created before "
                  "it existed (mustStop non-empty), or two stop calls were issued, or an arbiter had stopped early; "
                  "counted by TLC from the recorded history at the End record of each run",
-         nontrivial=lambda s: s["mustStop"] or s["twoStops"] or s["early"])
+         nontrivial=lambda s: s["mustStop"] or s["twoStops"] or s["early"] or s.get("laterStop"))
 
 
 def replay(ctx, path):
